@@ -407,6 +407,7 @@ func genMixedFanout(r *RNG, maxN int, mode int) []string {
 						labels = append(labels, b)
 					}
 				}
+				sort.Slice(labels, func(a, b int) bool { return labels[a] < labels[b] })
 			} else if mode == 3 {
 				labels = pairs[0]
 			} else {
